@@ -1,2 +1,427 @@
-// Package c20: implementation-side ops, generators and oracles for property C20.
 package c20
+
+import (
+	"bytes"
+	"errors"
+	"fmt"
+	"strings"
+	"time"
+
+	"github.com/sirupsen/logrus"
+
+	"github.com/cossacklabs/acra/logging"
+
+	"verifharness/internal/core"
+)
+
+func init() { core.RegisterProp("C20", run) }
+
+var formats = []string{"plaintext", "cef", "json"}
+
+const endMsg = logging.EndOfAuditLogChainMessage
+
+var pieces = []string{"\n", "\r\n", "\r", "\"", "'", "=", "|", "\\", " integrity=", " integrity=abcdef0123", "integrity=", "chain=new", " chain=new", "chain=end",
+	endMsg, "\t", " ", "  ", "é", " ", " ", "\x00", "\xff\xfe", "{", "}", ",", ":", "delimiter", "msg=", "level=info", "%s", "%!d", "<>&"}
+
+var words = []string{"query", "failed", "user", "SELECT 1", "client_id", "ok", "x", "connection closed", "0", "-1"}
+
+var fieldNames = []string{"user", "client_id", "integrity", "chain", "msg", "time", "level", "a", "a b", "k=v", "unixTime", "product", "code", "severity", "vendor", "version",
+	"error", "zz", "Integrity", "chain=end", "é", "x|y", "q\"uote", "back\\slash", "timestamp", "fields.msg"}
+
+func advString(rd *core.Rand) string {
+	switch rd.Intn(10) {
+	case 0:
+		return ""
+	case 1:
+		return endMsg
+	case 2, 3, 4:
+		return core.Pick(rd, words)
+	}
+	var sb strings.Builder
+	n := 1 + rd.Intn(4)
+	for i := 0; i < n; i++ {
+		if rd.Chance(55) {
+			sb.WriteString(core.Pick(rd, pieces))
+		} else {
+			sb.WriteString(core.Pick(rd, words))
+		}
+	}
+	return sb.String()
+}
+
+func advValue(rd *core.Rand) interface{} {
+	switch rd.Intn(12) {
+	case 0:
+		return rd.Intn(1000) - 500
+	case 1:
+		return rd.Bool()
+	case 2:
+		return float64(rd.Intn(1000)) / 8
+	case 3:
+		return nil
+	case 4:
+		return errors.New(advString(rd))
+	case 5:
+		return uint64(1) << uint(rd.Intn(64))
+	case 6:
+		return []string{advString(rd), "b"}
+	}
+	return advString(rd)
+}
+
+var levels = []logrus.Level{logrus.DebugLevel, logrus.InfoLevel, logrus.WarnLevel, logrus.ErrorLevel}
+
+func genHistory(rd *core.Rand, adversarial bool, maxLen int) []entrySpec {
+	var h []entrySpec
+	base := time.Unix(1600000000+int64(rd.Intn(100000000)), int64(rd.Intn(1000))*1000000).UTC()
+	n := 1 + rd.Intn(maxLen)
+	for i := 0; i < n; i++ {
+		switch {
+		case rd.Chance(8):
+			h = append(h, entrySpec{kind: 'r'})
+		case rd.Chance(3):
+			h = append(h, entrySpec{kind: 'f'})
+		default:
+			e := entrySpec{kind: 'e', level: core.Pick(rd, levels), t: base.Add(time.Duration(i*rd.Intn(3)) * time.Second), fields: logrus.Fields{}}
+			if adversarial {
+				e.msg = advString(rd)
+				for k := rd.Intn(4); k > 0; k-- {
+					e.fields[core.Pick(rd, fieldNames)] = advValue(rd)
+				}
+			} else {
+				e.msg = core.Pick(rd, words)
+				if rd.Chance(50) {
+					e.fields["client_id"] = core.Pick(rd, words)
+				}
+			}
+			h = append(h, e)
+		}
+	}
+	return h
+}
+
+func itemsArg(items []recItem) string {
+	parts := make([]string, len(items))
+	for i, it := range items {
+		parts[i] = core.Hex(it.formatted) + ":" + b01(it.reset)
+	}
+	return strings.Join(parts, " ")
+}
+
+// inputClass names the decidable class of an honest history that matters for known defects.
+func inputClass(format string, specs []entrySpec, items []recItem) string {
+	for _, s := range specs {
+		if s.kind != 'e' {
+			continue
+		}
+		for k := range s.fields {
+			if format == "json" && (k == "integrity" || k == "chain") {
+				return "field-named-integrity-or-chain"
+			}
+		}
+	}
+	if format == "json" {
+		for k, it := range items {
+			if strings.EqualFold(it.msg, endMsg) && (k == 0 || items[k-1].reset) {
+				return "chain-starts-with-end-message"
+			}
+		}
+	}
+	if format != "json" {
+		for _, it := range items {
+			f := it.formatted
+			if format == "plaintext" {
+				f = f[:len(f)-1]
+			} else {
+				f = f[:len(f)-2]
+			}
+			if bytes.Contains(f, []byte(logging.DataSplitToken)) {
+				return "entry-contains-split-token"
+			}
+		}
+	}
+	for _, it := range items {
+		if len(it.formatted) >= 65000 {
+			return "line-of-64KiB-or-more"
+		}
+	}
+	return "other"
+}
+
+func verifyOp(r *core.Run, format string, key, file []byte) string {
+	if format == "json" {
+		ls := fileLines(file)
+		specs := make([]string, len(ls))
+		for i, l := range ls {
+			specs[i] = specOfLine("json", l)
+		}
+		return r.Do(fmt.Sprintf("C20.verifyp %s %s %s", core.Hex(key), core.Hex(file), strings.Join(specs, " ")))
+	}
+	return r.Do(fmt.Sprintf("C20.verify %s %s %s", format, core.Hex(key), core.Hex(file)))
+}
+
+// protectedAfter returns the index of the first line after position p that carries an integrity
+// part (per the real parser); len(lines) when there is none.
+func protectedAfter(format string, lines [][]byte, p int) int {
+	for i := p + 1; i < len(lines); i++ {
+		if parseReal(format, lines[i]) != "skip" {
+			return i
+		}
+	}
+	return len(lines)
+}
+
+func failLine(v string) int {
+	var l int
+	var k string
+	if _, err := fmt.Sscanf(v, "fail %d %s", &l, &k); err != nil {
+		return -1
+	}
+	return l
+}
+
+// mustFailBy checks the tamper clause: verification of the altered log fails at line ≤ limit.
+func mustFailBy(r *core.Run, class, what string, v string, limit int) {
+	l := failLine(v)
+	r.Check(l >= 0 && l <= limit, class, fmt.Sprintf("%s: verifier says %q, expected a failure no later than line %d", what, v, limit))
+}
+
+func run(r *core.Run) {
+	r.Rule = "histories of log calls and chain restarts through the real logging stack in plaintext, CEF and JSON (structured: ordinary messages/fields; adversarial: line breaks, quotes, separators, look-alike integrity/chain markers, the end-of-chain message, field names colliding with the hooks' own keys; boundary: empty messages, single-entry chains, very long lines), then every kind of alteration of the produced log; a case is non-trivial when the log has at least one protected entry; distinct by the produced bytes"
+	rd := r.Rand
+	key := []byte("audit-log-key-0123456789abcdef--")
+	corpus(r, key)
+	calcCases(r)
+	parseCases(r)
+	for n := 0; n < r.N(150, 3000); n++ {
+		format := formats[n%3]
+		adversarial := rd.Chance(70)
+		specs := genHistory(rd, adversarial, 8)
+		oneHistory(r, format, key, specs, adversarial)
+	}
+	// boundary: long lines (the scanner's 64 KiB token limit)
+	for n := 0; n < r.N(3, 30); n++ {
+		format := formats[n%3]
+		specs := genHistory(rd, false, 4)
+		specs = append(specs, entrySpec{kind: 'e', level: logrus.InfoLevel, t: time.Unix(1700000000, 0).UTC(), msg: strings.Repeat("L", 65000+rd.Intn(1200)), fields: logrus.Fields{}})
+		specs = append(specs, genHistory(rd, false, 3)...)
+		oneHistory(r, format, key, specs, false)
+	}
+}
+
+func corpus(r *core.Run, key []byte) {
+	t0 := time.Unix(1700000000, 0).UTC()
+	e := func(msg string, f logrus.Fields) entrySpec {
+		if f == nil {
+			f = logrus.Fields{}
+		}
+		return entrySpec{kind: 'e', level: logrus.InfoLevel, t: t0, msg: msg, fields: f}
+	}
+	// §8 #11: an honest entry containing the split token, followed by another entry
+	for _, format := range formats {
+		oneHistory(r, format, key, []entrySpec{e("start", nil), e("user typed integrity=0 in a form", nil), e("next", nil)}, true)
+		oneHistory(r, format, key, []entrySpec{e("start", nil), e("look-alike", logrus.Fields{"a": "1", "integrity": "deadbeef"}), e("next", nil)}, true)
+		oneHistory(r, format, key, []entrySpec{e("start", nil), e("chain field", logrus.Fields{"chain": "new"}), e("next", nil)}, true)
+		oneHistory(r, format, key, []entrySpec{e(endMsg, nil), e("after a first entry that is an end marker", nil)}, true)
+		oneHistory(r, format, key, []entrySpec{e("a", nil), {kind: 'r'}, e("b", nil), {kind: 'r'}, {kind: 'f'}}, false)
+	}
+}
+
+func calcCases(r *core.Run) {
+	rd := r.Rand
+	for n := 0; n < r.N(60, 3000); n++ {
+		key := rd.Bytes(rd.Intn(40))
+		var items []string
+		for k := 1 + rd.Intn(6); k > 0; k-- {
+			items = append(items, core.Hex(rd.Bytes(rd.Intn(80)))+":"+b01(rd.Chance(20)))
+		}
+		r.Begin("calc:"+core.Hex(key)+strings.Join(items, " "), true, "stream:structured", "layer:calc")
+		r.Do("C20.calc " + core.Hex(key) + " " + strings.Join(items, " "))
+	}
+}
+
+// parseCases: the line parsers on hand-made and random lines around the split token and the markers
+func parseCases(r *core.Run) {
+	rd := r.Rand
+	tails := []string{"", "00", "0", "zz", "ABCDEF", "abcdef", "ab cd", " ", "00 ", " 00", "00\t", "00 ", "00 ", "00　", "00\xc2", "00 chain=new", "00 chain=new ", "00  chain=new",
+		" chain=new", "chain=new", "00 chain=newx", "00 chain=new chain=new", "00\r", " 00", "00 chain=new "}
+	heads := []string{"", "x", "time=1 msg=a", "a chain=end b " + endMsg, endMsg, "chain=end", " integrity=", "a integrity=00", "é", "\xff"}
+	var lines [][]byte
+	for _, h := range heads {
+		for _, t := range tails {
+			lines = append(lines, []byte(h+logging.DataSplitToken+t))
+		}
+		lines = append(lines, []byte(h), []byte(h+" integrity"), []byte(h+"integrity=00"))
+	}
+	for n := 0; n < r.N(300, 20000); n++ {
+		var sb strings.Builder
+		for k := rd.Intn(6); k > 0; k-- {
+			switch rd.Intn(5) {
+			case 0:
+				sb.WriteString(logging.DataSplitToken)
+			case 1:
+				sb.WriteString(core.Pick(rd, tails))
+			case 2:
+				sb.WriteString(core.Pick(rd, pieces))
+			default:
+				sb.WriteString(core.Pick(rd, words))
+			}
+		}
+		lines = append(lines, []byte(sb.String()))
+	}
+	for _, l := range lines {
+		if bytes.ContainsAny(l, "\n") {
+			continue
+		}
+		for _, format := range []string{"plaintext", "cef"} {
+			r.Begin("parse:"+format+":"+core.Hex(l), len(l) > 0, "stream:malformed", "layer:parse")
+			r.Do(fmt.Sprintf("C20.parse %s %s", format, core.Hex(l)))
+		}
+	}
+}
+
+func oneHistory(r *core.Run, format string, key []byte, specs []entrySpec, adversarial bool) {
+	rd := r.Rand
+	file, items := pipeline(format, key, specs)
+	stream := "stream:structured"
+	if adversarial {
+		stream = "stream:adversarial"
+	}
+	r.Begin("hist:"+format+":"+core.Hex(file), len(items) > 0, stream, "format:"+format, fmt.Sprintf("entries:%d", len(items)))
+	class := inputClass(format, specs, items)
+	// layer 2: the hooks applied to the recorded formatter outputs reproduce the pipeline's bytes
+	if format != "json" {
+		line := fmt.Sprintf("C20.produce %s %s %s", format, core.Hex(key), itemsArg(items))
+		out := r.Do(line)
+		if out != core.Hex(file) {
+			r.Diff(line+" ", core.Hex(file)) // the real pipeline differs from hooks∘formatter: recorded as a broken tie
+		}
+	}
+	lines := fileLines(file)
+	if format != "json" {
+		for _, l := range lines {
+			r.Do(fmt.Sprintf("C20.parse %s %s", format, core.Hex(l)))
+		}
+	}
+	// clause 1: honest output verifies
+	v := verifyOp(r, format, key, file)
+	honest := r.Check(v == "ok", "honest-fails:"+format+":"+class, fmt.Sprintf("honest %s log does not verify (%s): history %.300s", format, v, describe(specs)))
+	if !honest || len(lines) == 0 {
+		return
+	}
+	// every line of an honest log must be a protected entry (else alterations of it go unnoticed)
+	for i, l := range lines {
+		if !strings.HasPrefix(parseReal(format, l), "entry") {
+			r.Fail("honest-line-unprotected:"+format+":"+class, fmt.Sprintf("line %d of an honest %s log is not recognised as a protected entry: %.200q", i, format, l))
+			return
+		}
+	}
+	// every line of an honest log must have been delivered and be protected (else alterations go unnoticed)
+	nl := bytes.Count(file, []byte("\n"))
+	r.Check(len(lines) == nl, "lines-not-delivered:"+class, fmt.Sprintf("the log has %d lines, the reader delivers %d", nl, len(lines)))
+	// clause 2: alterations
+	// wrong key
+	wk := append([]byte{}, key...)
+	wk[rd.Intn(len(wk))] ^= 1 << uint(rd.Intn(8))
+	mustFailBy(r, "wrong-key-verifies", "verification with another key", verifyOp(r, format, wk, file), protectedAfter(format, lines, -1))
+	nMut := r.N(4, 12)
+	for m := 0; m < nMut; m++ {
+		i := rd.Intn(len(lines))
+		orig := parseReal(format, lines[i])
+		if !strings.HasPrefix(orig, "entry") {
+			continue
+		}
+		mut := make([][]byte, len(lines))
+		copy(mut, lines)
+		switch rd.Intn(5) {
+		case 0: // edit one byte of the line; counts as a change when the parsed content differs
+			l := append([]byte{}, lines[i]...)
+			p := rd.Intn(len(l))
+			l[p] ^= byte(1 << uint(rd.Intn(7)))
+			if bytes.ContainsAny(l, "\n\r") {
+				continue
+			}
+			now := parseReal(format, l)
+			if now == orig {
+				continue // encoding-level edit (hex case, JSON spacing): authenticated content unchanged
+			}
+			if now == "skip" {
+				continue // the entry lost its integrity part: it is now an unprotected line (= removal, judged below)
+			}
+			mut[i] = l
+			f := strings.Fields(orig)
+			g := strings.Fields(now)
+			if len(g) == 5 && f[1] == g[1] && f[2] == g[2] && f[4] == g[4] && i == firstProtected(format, lines) {
+				continue // only the chain=new marker of the very first entry changed: same computation
+			}
+			mustFailBy(r, "edit-undetected:"+format, fmt.Sprintf("line %d edited at byte %d", i, p), verifyOp(r, format, key, joinLines(mut)), protectedAfter(format, mut, i))
+		case 1: // delete an entry that is followed by another entry of its chain
+			if i+1 >= len(lines) {
+				continue
+			}
+			nx := strings.Fields(parseReal(format, lines[i+1]))
+			if len(nx) != 5 || nx[3] == "1" {
+				continue
+			}
+			mut = append(append([][]byte{}, lines[:i]...), lines[i+1:]...)
+			mustFailBy(r, "delete-undetected:"+format, fmt.Sprintf("line %d removed", i), verifyOp(r, format, key, joinLines(mut)), i)
+		case 2: // swap two different entries
+			j := rd.Intn(len(lines))
+			if i == j || bytes.Equal(lines[i], lines[j]) || !strings.HasPrefix(parseReal(format, lines[j]), "entry") {
+				continue
+			}
+			if i > j {
+				i, j = j, i
+			}
+			mut[i], mut[j] = lines[j], lines[i]
+			cls := "swap-undetected:" + format
+			if fi, fj := strings.Fields(orig), strings.Fields(parseReal(format, lines[j])); fi[3] == "1" && fi[4] == "1" && fj[3] == "1" && fj[4] == "1" {
+				cls = "single-entry-chain-replay" // two complete one-entry chains exchanged
+			}
+			mustFailBy(r, cls, fmt.Sprintf("lines %d and %d swapped", i, j), verifyOp(r, format, key, joinLines(mut)), protectedAfter(format, mut, i))
+		case 3: // duplicate an entry (copy inserted at a random place)
+			p := rd.Intn(len(lines) + 1)
+			mut = append(append(append([][]byte{}, lines[:p]...), lines[i]), lines[p:]...)
+			f := strings.Fields(orig)
+			cls := "dup-undetected:" + format
+			lim := protectedAfter(format, mut, p)
+			if f[3] == "1" && prevIsEndOrNone(format, mut, p) {
+				// the copy starts a chain at a place where a chain may start: the verifier accepts it there
+				if f[4] == "1" {
+					cls = "single-entry-chain-replay" // the entry is a complete chain by itself
+				} else if lim == len(mut) {
+					cls = "chain-start-replay-at-end-of-log" // nothing follows: a chain prefix is a valid tail
+				}
+			}
+			mustFailBy(r, cls, fmt.Sprintf("line %d duplicated at %d", i, p), verifyOp(r, format, key, joinLines(mut)), lim)
+		case 4: // replace the authenticated part by that of another entry, keeping the tag (splice)
+			j := rd.Intn(len(lines))
+			if format == "json" || i == j {
+				continue
+			}
+			a, b := string(lines[i]), string(lines[j])
+			ia, ib := strings.LastIndex(a, logging.DataSplitToken), strings.LastIndex(b, logging.DataSplitToken)
+			if ia < 0 || ib < 0 || a[:ia] == b[:ib] {
+				continue
+			}
+			mut[i] = []byte(b[:ib] + a[ia:])
+			if parseReal(format, mut[i]) == "skip" {
+				continue
+			}
+			mustFailBy(r, "splice-undetected:"+format, fmt.Sprintf("line %d got the content of line %d with its own tag", i, j), verifyOp(r, format, key, joinLines(mut)), protectedAfter(format, mut, i))
+		}
+	}
+}
+
+func firstProtected(format string, lines [][]byte) int { return protectedAfter(format, lines, -1) }
+
+// prevIsEndOrNone: is the last protected entry before position p an end-of-chain entry (or is there none)?
+func prevIsEndOrNone(format string, lines [][]byte, p int) bool {
+	for i := p - 1; i >= 0; i-- {
+		f := strings.Fields(parseReal(format, lines[i]))
+		if len(f) == 5 {
+			return f[4] == "1"
+		}
+	}
+	return true
+}
